@@ -463,6 +463,7 @@ fn replay_one(beh: &Value, tag: &str, orders: (&str, &str)) -> (usize, usize, Ve
 
 fn replay_cmd(args: &[String]) -> Value {
     let file = args.get(2).expect("behaviours file");
+    let stop_on: Vec<String> = arg(args, "--stop-on").map(|s| s.split(',').map(|x| x.to_string()).collect()).unwrap_or_default();
     let po = arg(args, "--poller").unwrap_or("mono_first".into());
     let co = arg(args, "--client").unwrap_or("real_first".into());
     let f = std::io::BufReader::new(std::fs::File::open(file).expect("open"));
@@ -497,6 +498,7 @@ fn replay_cmd(args: &[String]) -> Value {
 fn explore_cmd(args: &[String]) -> Value {
     let seed: u64 = arg(args, "--seed").map(|s| s.parse().unwrap()).unwrap_or(1);
     let polls: usize = arg(args, "--polls").map(|s| s.parse().unwrap()).unwrap_or(2000);
+    let stop_on: Vec<String> = arg(args, "--stop-on").map(|s| s.split(',').map(|x| x.to_string()).collect()).unwrap_or_default();
     let po = arg(args, "--poller").unwrap_or("mono_first".into());
     let co = arg(args, "--client").unwrap_or("real_first".into());
     let mut rng = StdRng::seed_from_u64(seed);
@@ -621,7 +623,7 @@ fn explore_cmd(args: &[String]) -> Value {
             let cands: Vec<i128> = reports.iter().filter(|(b, _)| (*b - bound).abs() <= 2).map(|(_, t)| *t).collect();
             if as_of != 0 && !cands.is_empty() {
                 let latest = *cands.iter().max().unwrap();
-                if as_of > M0 * G + latest && violations.len() < 5 {
+                if as_of > M0 * G + latest && violations.iter().filter(|v| v["property"] == "C12").count() < 3 {
                     violations.push(json!({"property": "C12", "signature": "as-of-later-than-its-report",
                         "what": format!("poll {poll}: the published record pairs bound {bound} ns with as_of {as_of} ns, but the latest report carrying that bound was valid at {} ns: the as-of instant is not a reading taken before that request", M0 * G + latest),
                         "history": history.clone()}));
@@ -665,7 +667,7 @@ fn explore_cmd(args: &[String]) -> Value {
                         if samples.len() < 3 {
                             samples.push(json!({"at_ns": rnow.to_string(), "clock_error_ns": rerr.to_string(), "status": stc, "half_width_ns": ((latest - earliest) / 2).to_string()}));
                         }
-                        if !(earliest <= truth && truth <= latest) && violations.len() < 5 {
+                        if !(earliest <= truth && truth <= latest) && violations.iter().filter(|v| v["property"] == "C01").count() < 5 {
                             violations.push(json!({"property": "C01", "signature": "true-time-outside-interval",
                                 "what": format!("poll {poll}: status {stc}, clock error {rerr} ns at the realtime read, half-width {} ns: interval [{earliest}, {latest}] does not contain true time {truth}", (latest - earliest) / 2),
                                 "history": history.clone()}));
@@ -685,7 +687,8 @@ fn explore_cmd(args: &[String]) -> Value {
             _ => (G - spent.min(G)).max(0),
         };
         advance(&mut rng, &mut now_ns, &mut err_ns, rest);
-        if !violations.is_empty() {
+        // stop at the first violation of a property the caller asked about (--stop-on C01,C12); others are kept as data
+        if violations.iter().any(|v| stop_on.is_empty() || stop_on.iter().any(|p| v["property"] == p.as_str())) {
             break;
         }
     }
